@@ -551,6 +551,7 @@ func doReset(r *resetSpec) string {
 	bb.Write(lcgFill(r.seed+7, r.tail))
 	must(os.WriteFile(ptttype.FN_BOARD, bb.Bytes(), 0o600))
 	// shared memory
+	busyHeld = false
 	cache.Shm.Reset()
 	must(cache.LoadUHash())
 	cache.ReloadBCache()
@@ -704,6 +705,12 @@ func errClass(err error) string {
 
 var haveState bool
 
+// Shm.BBusyState as held by "another process": until `busy off`, or by a goroutine for a given time
+var (
+	busyHeld bool
+	busyDone chan struct{}
+)
+
 // exec runs one op line on the real code. Returns the canonical answer, a histogram label and whether the op
 // reached the real function.
 func exec(i int, line string) (out, label string, nontrivial bool) {
@@ -725,6 +732,33 @@ func exec(i int, line string) (out, label string, nontrivial bool) {
 		haveState = true
 		o := doReset(r)
 		return o, "reset:" + P.shape, false
+	case "busy":
+		if len(ws) != 2 || !haveState {
+			return "bad-op", "bad-op", false
+		}
+		switch ws[1] {
+		case "on":
+			cache.Shm.Shm.BBusyState = 1
+			busyHeld = true
+			P.busy = true
+		case "off":
+			cache.Shm.Shm.BBusyState = 0
+			busyHeld = false
+			P.busy = false
+		default:
+			ms, ok := parseNat(ws[1], 4)
+			if !ok {
+				return "bad-op", "bad-op", false
+			}
+			cache.Shm.Shm.BBusyState = 1
+			busyDone = make(chan struct{})
+			go func(d time.Duration, done chan struct{}) {
+				time.Sleep(d)
+				cache.Shm.Shm.BBusyState = 0
+				close(done)
+			}(time.Duration(ms)*time.Millisecond, busyDone)
+		}
+		return "ok", "busy:" + map[bool]string{true: ws[1], false: "timed"}[ws[1] == "on" || ws[1] == "off"], false
 	case "newbm":
 		if len(ws) != 2 {
 			return "bad-op", "bad-op", false
@@ -747,7 +781,7 @@ func exec(i int, line string) (out, label string, nontrivial bool) {
 		return hx.Hex(bm[:]), "newbm", true
 	case "bcreate":
 		a, ok := parseBbs(ws[1:])
-		if !ok || !haveState {
+		if !ok || !haveState || busyHeld {
 			return "bad-op", "bad-op", false
 		}
 		before := snap()
@@ -813,6 +847,14 @@ func exec(i int, line string) (out, label string, nontrivial bool) {
 			return ""
 		})
 		ptttype.DEFAULT_AUTOCPLOG = saved
+		if busyDone != nil { // a timed busy window: observe only once "the other process" has let go
+			<-busyDone
+			busyDone = nil
+		}
+		if busyHeld { // the observation (GetBid of the pool) is ours, not the request's: it does not wait on the flag
+			cache.Shm.Shm.BBusyState = 0
+			defer func() { cache.Shm.Shm.BBusyState = 1 }()
+		}
 		res := o
 		slot := -1
 		switch {
